@@ -23,6 +23,10 @@ import (
 	"time"
 
 	abci "github.com/cometbft/cometbft/abci/types"
+	sdk "github.com/cosmos/cosmos-sdk/types"
+	govtypes "github.com/cosmos/cosmos-sdk/x/gov/types"
+	govv1 "github.com/cosmos/cosmos-sdk/x/gov/types/v1"
+	"mods.irisnet.org/simapp"
 	"pgregory.net/rapid"
 
 	"verifharness/chain"
@@ -31,7 +35,23 @@ import (
 
 func TestReplay(t *testing.T) { pbt.ReplayMain(t) }
 
-var nodeOpts = chain.Options{AllRich: false, WhaleBits: 120}
+var nodeOpts = chain.Options{AllRich: false, WhaleBits: 120, GenesisMod: baseGenesisMod}
+
+// baseGenesisMod shortens the governance periods so that parameter changes by proposal (the only way a
+// transaction history can change module parameters) pass within a generated history: minimum deposit 1 stake,
+// voting period 5 min. U0 holds the only delegation, so its vote decides.
+func baseGenesisMod(app *simapp.SimApp, gs simapp.GenesisState) {
+	var gg govv1.GenesisState
+	app.AppCodec().MustUnmarshalJSON(gs[govtypes.ModuleName], &gg)
+	vp, dp := 5*time.Minute, 10*time.Minute
+	gg.Params.MinDeposit = sdk.NewCoins(sdk.NewInt64Coin("stake", 1))
+	gg.Params.ExpeditedMinDeposit = sdk.NewCoins(sdk.NewInt64Coin("stake", 2))
+	gg.Params.VotingPeriod = &vp
+	gg.Params.MaxDepositPeriod = &dp
+	evp := 1 * time.Minute
+	gg.Params.ExpeditedVotingPeriod = &evp
+	gs[govtypes.ModuleName] = app.AppCodec().MustMarshalJSON(&gg)
+}
 
 type blockDigest struct {
 	AppHash string            `json:"app_hash"`
@@ -342,6 +362,9 @@ func (m *c11Machine) Classify() (bool, []string) {
 	if len(m.h.w.feeds) > 0 {
 		cl = append(cl, "feed")
 	}
+	if passedProposals(m.r0) > 0 {
+		cl = append(cl, "params-changed-by-proposal")
+	}
 	if len(m.h.w.ctxs) > 0 {
 		cl = append(cl, "service-context")
 	}
@@ -372,4 +395,17 @@ func TestC11(t *testing.T) {
 			fmt.Printf("MSG %-55s ok=%d fail=%d\n", k, dbgOK[k], dbgFail[k])
 		}
 	}
+}
+
+
+// passedProposals counts governance proposals that passed (and therefore executed their parameter update).
+func passedProposals(n *chain.Node) int {
+	c := 0
+	_ = n.App.GovKeeper.Proposals.Walk(n.Ctx(), nil, func(_ uint64, p govv1.Proposal) (bool, error) {
+		if p.Status == govv1.StatusPassed {
+			c++
+		}
+		return false, nil
+	})
+	return c
 }
